@@ -1,65 +1,330 @@
-import SkaModel.Gen.StreamBM
+import SkaModel.Lemmas.StreamGen
+import SkaModel.Lemmas.StreamSim
+import SkaModel.Props.C03
+import SkaModel.Props.C04
+import SkaModel.Props.C10
 
-namespace Ska.StreamGen
-open Ska Ska.Budget Ska.PyRt Ska.Gen.BM
+/-!
+# C03 / C04 / C10 for the model *generated from the current Python source*
 
-section
+`SkaModel/Gen/StreamBM.lean` is re-written by `harness/translate/pystream.py` from
+`skactiveml/stream/budgetmanager/*.py` and `skactiveml/stream/_stream_baselines.py` on every run of the checks
+C03, C04 and C10.  This file packages the generated `query_by_utility` / `query` / `update` functions of each class
+as a manager over *objects* (`gFixedMgr`, …), states that it **simulates** the hand-written model
+(`*_sim`, from the bridging theorems of `Lemmas/StreamGen.lean`, which hold for all inputs), and transfers the property
+theorems of `Props/C03.lean`, `C04.lean`, `C10.lean` to it.  A change of the Python source that alters what a
+method computes changes the generated definitions, and the corresponding `*_sim` theorem (or the bridging lemma
+under it) no longer checks.
+
+Property theorems only (helper lemmas: `Lemmas/StreamGen.lean`, `Lemmas/StreamSim.lean`).
+-/
+
+set_option linter.unusedSectionVars false
+
+namespace Ska.StreamGenProps
+open Ska Ska.Budget Ska.PyRt Ska.Gen.BM Ska.StreamGen Ska.StreamSim
+
+section Managers
 variable {α : Type} [Add α] [Sub α] [Mul α] [Div α] [LT α] [DecidableLT α] [OfNat α 0] [OfNat α 1] [NatCast α]
+variable (nrm uni : Nat → α) (qf : List (Option α) → Option α)
 
-def zp (o : ZObj α) : ZParams α := { w := o.w, b := o.budget_, s := o.s, v := o.v, nc := o.nclasses }
-def zs (o : ZObj α) : ZState α := { u := o.u_t_, theta := o.theta_, rng := o.rng }
-def zput (o : ZObj α) (s : ZState α) : ZObj α := { o with u_t_ := s.u, theta_ := s.theta, rng := s.rng }
+/-! ## the generated methods as managers over objects -/
 
-omit [Add α] [Sub α] [Mul α] [Div α] [LT α] [DecidableLT α] [OfNat α 0] [OfNat α 1] [NatCast α] in
-theorem zput_zs (o : ZObj α) : zput o (zs o) = o := by cases o; rfl
+def gFixedMgr : Mgr (ZObj α) (Option α) :=
+  { query := FixedUncertaintyBudgetManager.query_by_utility nrm uni qf,
+    update := fun o c idx => FixedUncertaintyBudgetManager.update nrm uni qf o c.length idx }
+def gVarMgr : Mgr (ZObj α) (Option α) :=
+  { query := VariableUncertaintyBudgetManager.query_by_utility nrm uni qf,
+    update := fun o c idx => VariableUncertaintyBudgetManager.update nrm uni qf o c.length idx }
+def gRandVarMgr : Mgr (ZObj α) (Option α) :=
+  { query := RandomVariableUncertaintyBudgetManager.query_by_utility nrm uni qf,
+    update := fun o c idx => RandomVariableUncertaintyBudgetManager.update nrm uni qf o c.length idx }
+def gSplitMgr : Mgr (ZObj α) (Option α) :=
+  { query := SplitBudgetManager.query_by_utility nrm uni qf,
+    update := fun o c idx => SplitBudgetManager.update nrm uni qf o c.length idx }
+def gRandomMgr : Mgr (ZObj α) (Option α) :=
+  { query := RandomBudgetManager.query_by_utility nrm uni qf,
+    update := fun o c idx => RandomBudgetManager.update nrm uni qf o c.length idx }
+def gDbMgr : Mgr (DObj α) (Option α) :=
+  { query := DensityBasedSplitBudgetManager.query_by_utility nrm uni qf,
+    update := fun o c idx => DensityBasedSplitBudgetManager.update nrm uni qf o c.length idx }
+def gBiqfMgr : Mgr (QObj α) (Option α) :=
+  { query := BalancedIncrementalQuantileFilter.query_by_utility nrm uni qf,
+    update := fun o c idx => BalancedIncrementalQuantileFilter.update nrm uni qf o c.length idx c }
+def gSrsMgr : Mgr (CObj α) Unit :=
+  { query := fun o c => let r := StreamRandomSampling.query nrm uni qf o c.length; (r.1.1, r.2),
+    update := fun o c idx => StreamRandomSampling.update nrm uni qf o c.length idx }
+def gPerMgr : Mgr (CObj α) Unit :=
+  { query := fun o c => let r := PeriodicSampling.query nrm uni qf o c.length; (r.1.1, r.2),
+    update := fun o c idx => PeriodicSampling.update nrm uni qf o c.length idx }
 
-/-- a `for i, x in enumerate(map f xs)` loop that carries `L` refines `simLoop hb` on `xs` -/
-theorem foldl_zipIdx_simLoop {L σ ι κ : Type} (body : L → κ × Nat → L) (hb : σ → ι → Bool × σ) (f : ι → κ)
-    (proj : L → σ) (q : L → List Nat)
-    (hproj : ∀ l x i, proj (body l (f x, i)) = (hb (proj l) x).2)
-    (hq : ∀ l x i, q (body l (f x, i)) = if (hb (proj l) x).1 then q l ++ [i] else q l) :
-    ∀ (xs : List ι) (l : L) (k : Nat),
-      proj (((xs.map f).zipIdx k).foldl body l) = (simLoop hb (proj l) xs).2 ∧
-      q (((xs.map f).zipIdx k).foldl body l) = q l ++ idxOf (simLoop hb (proj l) xs).1 k := by
-  intro xs
-  induction xs with
-  | nil => intro l k; simp [simLoop, idxOf]
-  | cons x xs ih =>
-    intro l k
-    simp only [List.map_cons, List.zipIdx_cons, List.foldl_cons, simLoop, idxOf]
-    have h := ih (body l (f x, k)) (k + 1)
-    rw [hproj, hq] at h
-    refine ⟨h.1, ?_⟩
-    rw [h.2]
-    split <;> simp
+/-! ## tie: every generated manager simulates the hand-written model of its class -/
 
-omit [Add α] [Sub α] [Mul α] [Div α] [LT α] [DecidableLT α] [OfNat α 0] [OfNat α 1] [NatCast α] in
-theorem lastB_append (xs : List Bool) (b : Bool) : lastB (xs ++ [b]) = b := by
-  simp [lastB]
+/-- FixedUncertaintyBudgetManager as translated = `fixedMgr` (for every object whose parameters are `p`). -/
+theorem fixed_sim (p : ZParams α) : Sim (gFixedMgr nrm uni qf) (fixedMgr p) zs zput (fun o => zp o = p) where
+  query_eq o xs ho := by subst ho; exact fixed_query_eq nrm uni qf o xs
+  update_eq o xs idx ho := by subst ho; exact fixed_update_eq nrm uni qf o xs.length idx
+  inv_put o s ho := by rw [zp_zput]; exact ho
+  abs_put := zs_zput
+  put_abs := zput_zs
+  put_put := zput_zput
 
-theorem fixed_query_eq (nrm uni : Nat → α) (qf) (o : ZObj α) (us : List (Option α)) :
-    FixedUncertaintyBudgetManager.query_by_utility nrm uni qf o us
-      = ((fixedQuery (zp o) (zs o) us).1, zput o (fixedQuery (zp o) (zs o) us).2) := by
-  have h := foldl_zipIdx_simLoop
-    (FixedUncertaintyBudgetManager.query_by_utility.loop1 nrm uni qf o)
-    (fixedBody (zp o)) (fun u => leO (conf u) (1 / o.nclasses + o.budget_ * (1 - 1 / o.nclasses)))
-    (fun l => ({ u := l.2.1, theta := o.theta_, rng := o.rng } : ZState α)) (fun l => l.2.2)
-    (by
-      intro l x i
-      obtain ⟨bl, u, q⟩ := l
-      simp only [FixedUncertaintyBudgetManager.query_by_utility.loop1, lastB_append, fixedBody, fixedTheta, zp, budgetLeft, nextU, b2f]
-      by_cases h1 : u / o.w < o.budget_ <;> simp [h1])
-    (by
-      intro l x i
-      obtain ⟨bl, u, q⟩ := l
-      simp only [FixedUncertaintyBudgetManager.query_by_utility.loop1, lastB_append, fixedBody, fixedTheta, zp, budgetLeft, nextU, b2f]
-      by_cases h1 : u / o.w < o.budget_ <;> simp [h1])
-    us ([], o.u_t_, []) 0
-  obtain ⟨h1, h2⟩ := h
-  simp only [FixedUncertaintyBudgetManager.query_by_utility, fixedQuery, zQuery, List.map_map, zs, zput]
-  simp only [Function.comp_def] 
-  rw [h2]
-  cases o; simp [zs]
+theorem var_sim (p : ZParams α) : Sim (gVarMgr nrm uni qf) (varMgr p) zs zput (fun o => zp o = p) where
+  query_eq o xs ho := by subst ho; exact var_query_eq nrm uni qf o xs
+  update_eq o xs idx ho := by subst ho; exact var_update_eq nrm uni qf o xs.length idx
+  inv_put o s ho := by rw [zp_zput]; exact ho
+  abs_put := zs_zput
+  put_abs := zput_zs
+  put_put := zput_zput
 
-end
-end Ska.StreamGen
+theorem randVar_sim (p : ZParams α) : Sim (gRandVarMgr nrm uni qf) (randVarMgr p nrm) zs zput (fun o => zp o = p) where
+  query_eq o xs ho := by subst ho; exact randvar_query_eq nrm uni qf o xs
+  update_eq o xs idx ho := by subst ho; exact randvar_update_eq nrm uni qf o xs.length idx
+  inv_put o s ho := by rw [zp_zput]; exact ho
+  abs_put := zs_zput
+  put_abs := zput_zs
+  put_put := zput_zput
+
+theorem split_sim (p : ZParams α) : Sim (gSplitMgr nrm uni qf) (splitMgr p uni) zs zput (fun o => zp o = p) where
+  query_eq o xs ho := by subst ho; exact split_query_eq nrm uni qf o xs
+  update_eq o xs idx ho := by subst ho; exact split_update_eq nrm uni qf o xs.length idx
+  inv_put o s ho := by rw [zp_zput]; exact ho
+  abs_put := zs_zput
+  put_abs := zput_zs
+  put_put := zput_zput
+
+theorem random_sim (p : ZParams α) : Sim (gRandomMgr nrm uni qf) (randomMgr p uni) zs zput (fun o => zp o = p) where
+  query_eq o xs ho := by subst ho; exact random_query_eq nrm uni qf o xs
+  update_eq o xs idx ho := by subst ho; exact random_update_eq nrm uni qf o xs.length idx
+  inv_put o s ho := by rw [zp_zput]; exact ho
+  abs_put := zs_zput
+  put_abs := zput_zs
+  put_put := zput_zput
+
+theorem dbSplit_sim (p : DParams α) : Sim (gDbMgr nrm uni qf) (dbMgr p nrm) ds dput (fun o => dp o = p) where
+  query_eq o xs ho := by subst ho; exact db_query_eq nrm uni qf o xs
+  update_eq o xs idx ho := by subst ho; exact db_update_eq nrm uni qf o xs.length idx
+  inv_put o s ho := by rw [dp_dput]; exact ho
+  abs_put := ds_dput
+  put_abs := dput_ds
+  put_put := dput_dput
+
+theorem biqf_sim (p : QParams α) : Sim (gBiqfMgr nrm uni qf) (biqfMgr p qf) qs qput (fun o => qp o = p) where
+  query_eq o xs ho := by subst ho; exact biqf_query_eq nrm uni qf o xs
+  update_eq o xs idx ho := by subst ho; exact biqf_update_eq nrm uni qf o xs.length idx xs
+  inv_put o s ho := by subst ho; rfl
+  abs_put o s := rfl
+  put_abs o := by cases o; rfl
+  put_put o s s' := rfl
+
+theorem streamRandom_sim (allow : Bool) (b : α) :
+    Sim (gSrsMgr nrm uni qf) (srsMgr allow b uni) cs cput (fun o => o.allow_exceeding_budget = allow ∧ o.budget_ = b) where
+  query_eq o xs ho := by
+    obtain ⟨h1, h2⟩ := ho
+    subst h1; subst h2
+    simp only [gSrsMgr, srsMgr, srs_query_eq]
+  update_eq o xs idx ho := by simp only [gSrsMgr, srsMgr, srs_update_eq]
+  inv_put o s ho := ho
+  abs_put o s := rfl
+  put_abs o := by cases o; rfl
+  put_put o s s' := rfl
+
+theorem periodic_sim (b : α) : Sim (gPerMgr nrm uni qf) (perMgr b) cs cput (fun o => o.budget_ = b) where
+  query_eq o xs ho := by
+    subst ho
+    simp only [gPerMgr, perMgr, per_query_eq]
+  update_eq o xs idx ho := by simp only [gPerMgr, perMgr, per_update_eq]
+  inv_put o s ho := ho
+  abs_put o s := rfl
+  put_abs o := by cases o; rfl
+  put_put o s s' := rfl
+
+/-! ## C03 — the translated `query` methods are pure -/
+
+/-- **C03 on the translated source**: for every budget manager and both baseline strategies, the object returned by
+the translated `query_by_utility` / `query` is the object it was called on (every attribute, the generator's cursor
+included), for all objects, utilities / candidate counts and random streams. -/
+theorem gen_queries_pure :
+    PureQ (gFixedMgr nrm uni qf) ∧ PureQ (gVarMgr nrm uni qf) ∧ PureQ (gRandVarMgr nrm uni qf) ∧
+    PureQ (gSplitMgr nrm uni qf) ∧ PureQ (gRandomMgr nrm uni qf) ∧ PureQ (gDbMgr nrm uni qf) ∧
+    PureQ (gBiqfMgr nrm uni qf) ∧ PureQ (gSrsMgr nrm uni qf) ∧ PureQ (gPerMgr nrm uni qf) :=
+  ⟨fun o xs => (fixed_sim nrm uni qf (zp o)).pure (C03.fixed_query_pure _) o rfl xs,
+   fun o xs => (var_sim nrm uni qf (zp o)).pure (C03.variable_query_pure _) o rfl xs,
+   fun o xs => (randVar_sim nrm uni qf (zp o)).pure (C03.randVar_query_pure _ nrm) o rfl xs,
+   fun o xs => (split_sim nrm uni qf (zp o)).pure (C03.split_query_pure _ uni) o rfl xs,
+   fun o xs => (random_sim nrm uni qf (zp o)).pure (C03.random_query_pure _ uni) o rfl xs,
+   fun o xs => (dbSplit_sim nrm uni qf (dp o)).pure (C03.dbSplit_query_pure _ nrm) o rfl xs,
+   fun o xs => (biqf_sim nrm uni qf (qp o)).pure (C03.biqf_query_pure _ qf) o rfl xs,
+   fun o xs => (streamRandom_sim nrm uni qf o.allow_exceeding_budget o.budget_).pure
+      (C03.streamRandom_query_pure _ _ uni) o ⟨rfl, rfl⟩ xs,
+   fun o xs => (periodic_sim nrm uni qf o.budget_).pure (C03.periodic_query_pure _) o rfl xs⟩
+
+/-- **C03, histories**: on the translated FixedUncertaintyBudgetManager (and likewise on every manager of
+`gen_queries_pure`, through `C03.extra_queries_irrelevant`), extra `query_by_utility` calls anywhere in a history of
+calls change neither the results of the other calls nor the final object. -/
+theorem gen_extra_queries_irrelevant {ω ι : Type} (G : Mgr ω ι) (hG : PureQ G) (ops : List (Bool × Op ι))
+    (hq : ∀ o ∈ ops, o.1 = true → isQueryOp o.2 = true) (o : ω) :
+    ((runMarked G o ops).1.filter notExtra).map (·.2) = (runOps G o ((ops.filter notExtra).map (·.2))).1 ∧
+    (runMarked G o ops).2 = (runOps G o ((ops.filter notExtra).map (·.2))).2 :=
+  C03.extra_queries_irrelevant G hG ops hq o
+
+/-! ## C10 — `update` commits what `query` simulated: any chunking of a stream gives the same labels and the same object -/
+
+/-- **chunk invariance of the translated managers** (the deterministic ones and those whose draws are position
+based, as the property lists them): two chunkings of one stream into `query → update` rounds grant the same
+labels, end in the same object, and no `update` raises. -/
+theorem gen_chunk_invariance_fixed (o : ZObj α) (c1 c2 : List (List (Option α))) (hc : c1.flatten = c2.flatten) :
+    runChunked (gFixedMgr nrm uni qf) o c1 0 = runChunked (gFixedMgr nrm uni qf) o c2 0 ∧
+      ∃ r, runChunked (gFixedMgr nrm uni qf) o c1 0 = .ok r :=
+  (fixed_sim nrm uni qf (zp o)).chunk_invariance (C03.fixed_query_pure _) c1 c2 o rfl
+    (C10.chunk_invariance_fixed (zp o) (zs o) c1 c2 hc)
+
+theorem gen_chunk_invariance_variable (o : ZObj α) (c1 c2 : List (List (Option α))) (hc : c1.flatten = c2.flatten) :
+    runChunked (gVarMgr nrm uni qf) o c1 0 = runChunked (gVarMgr nrm uni qf) o c2 0 ∧
+      ∃ r, runChunked (gVarMgr nrm uni qf) o c1 0 = .ok r :=
+  (var_sim nrm uni qf (zp o)).chunk_invariance (C03.variable_query_pure _) c1 c2 o rfl
+    (C10.chunk_invariance_variable (zp o) (zs o) c1 c2 hc)
+
+theorem gen_chunk_invariance_split (o : ZObj α) (c1 c2 : List (List (Option α))) (hc : c1.flatten = c2.flatten) :
+    runChunked (gSplitMgr nrm uni qf) o c1 0 = runChunked (gSplitMgr nrm uni qf) o c2 0 ∧
+      ∃ r, runChunked (gSplitMgr nrm uni qf) o c1 0 = .ok r :=
+  (split_sim nrm uni qf (zp o)).chunk_invariance (C03.split_query_pure _ uni) c1 c2 o rfl
+    (C10.chunk_invariance_split (zp o) uni (zs o) c1 c2 hc)
+
+theorem gen_chunk_invariance_random (o : ZObj α) (c1 c2 : List (List (Option α))) (hc : c1.flatten = c2.flatten) :
+    runChunked (gRandomMgr nrm uni qf) o c1 0 = runChunked (gRandomMgr nrm uni qf) o c2 0 ∧
+      ∃ r, runChunked (gRandomMgr nrm uni qf) o c1 0 = .ok r :=
+  (random_sim nrm uni qf (zp o)).chunk_invariance (C03.random_query_pure _ uni) c1 c2 o rfl
+    (C10.chunk_invariance_random (zp o) uni (zs o) c1 c2 hc)
+
+theorem gen_chunk_invariance_biqf (o : QObj α) (c1 c2 : List (List (Option α))) (hc : c1.flatten = c2.flatten) :
+    runChunked (gBiqfMgr nrm uni qf) o c1 0 = runChunked (gBiqfMgr nrm uni qf) o c2 0 ∧
+      ∃ r, runChunked (gBiqfMgr nrm uni qf) o c1 0 = .ok r :=
+  (biqf_sim nrm uni qf (qp o)).chunk_invariance (C03.biqf_query_pure _ qf) c1 c2 o rfl
+    (C10.chunk_invariance_biqf (qp o) qf (qs o) c1 c2 hc)
+
+theorem gen_chunk_invariance_streamRandom (o : CObj α) (c1 c2 : List (List Unit)) (hc : c1.flatten = c2.flatten) :
+    runChunked (gSrsMgr nrm uni qf) o c1 0 = runChunked (gSrsMgr nrm uni qf) o c2 0 ∧
+      ∃ r, runChunked (gSrsMgr nrm uni qf) o c1 0 = .ok r :=
+  (streamRandom_sim nrm uni qf o.allow_exceeding_budget o.budget_).chunk_invariance
+    (C03.streamRandom_query_pure _ _ uni) c1 c2 o ⟨rfl, rfl⟩
+    (C10.chunk_invariance_streamRandom o.allow_exceeding_budget o.budget_ uni (cs o) c1 c2 hc)
+
+theorem gen_chunk_invariance_periodic (o : CObj α) (c1 c2 : List (List Unit)) (hc : c1.flatten = c2.flatten) :
+    runChunked (gPerMgr nrm uni qf) o c1 0 = runChunked (gPerMgr nrm uni qf) o c2 0 ∧
+      ∃ r, runChunked (gPerMgr nrm uni qf) o c1 0 = .ok r :=
+  (periodic_sim nrm uni qf o.budget_).chunk_invariance (C03.periodic_query_pure _) c1 c2 o rfl
+    (C10.chunk_invariance_periodic o.budget_ (cs o) c1 c2 hc)
+
+/-- **update accepts every query result** (translated RandomVariableUncertaintyBudgetManager and
+DensityBasedSplitBudgetManager, for which chunk invariance is not claimed): `update(candidates, query(...))`
+never raises. -/
+theorem gen_randVar_update_accepts_query (o : ZObj α) (us : List (Option α)) :
+    ∃ o', (gRandVarMgr nrm uni qf).update ((gRandVarMgr nrm uni qf).query o us).2 us
+      ((gRandVarMgr nrm uni qf).query o us).1 = .ok o' := by
+  have h := randVar_sim nrm uni qf (zp o)
+  have hp := h.pure (C03.randVar_query_pure _ nrm) o rfl us
+  rw [hp, h.query_fst o rfl us, h.update_eq o us _ rfl]
+  have := C10.randVar_update_accepts_query (zp o) nrm (zs o) us
+  rw [C03.randVar_query_pure (zp o) nrm (zs o) us] at this
+  rw [this]
+  exact ⟨_, rfl⟩
+
+theorem gen_dbSplit_update_accepts_query (o : DObj α) (us : List (Option α)) :
+    ∃ o', (gDbMgr nrm uni qf).update ((gDbMgr nrm uni qf).query o us).2 us
+      ((gDbMgr nrm uni qf).query o us).1 = .ok o' := by
+  have h := dbSplit_sim nrm uni qf (dp o)
+  have hp := h.pure (C03.dbSplit_query_pure _ nrm) o rfl us
+  rw [hp, h.query_fst o rfl us, h.update_eq o us _ rfl]
+  have := C10.dbSplit_update_accepts_query (dp o) nrm (ds o) us
+  rw [C03.dbSplit_query_pure (dp o) nrm (ds o) us] at this
+  rw [this]
+  exact ⟨_, rfl⟩
+
+end Managers
+
+/-! ## C04 — the translated managers never overspend (ordered field, every stream, chunking, prefix) -/
+
+section Bounds
+variable {α : Type} [Field α] [LinearOrder α] [IsStrictOrderedRing α]
+variable (nrm uni : Nat → α) (qf : List (Option α) → Option α)
+
+/-- number of labels granted among the first `n` instances -/
+def grantedBefore (granted : List Nat) (n : Nat) : Nat := (granted.filter (fun j => decide (j < n))).length
+
+/-- **FixedUncertaintyBudgetManager as translated**: a fresh object (`u_t_ = 0`) grants at most
+`budget*n + n/w + budget*w + 1` labels among the first `n` instances, whatever the utilities, however chunked. -/
+theorem gen_fixed_budget_respected (o : ZObj α) (hw : 1 ≤ o.w) (hb : 0 < o.budget_) (h0 : o.u_t_ = 0)
+    (chunks : List (List (Option α))) :
+    ∃ r, runChunked (gFixedMgr nrm uni qf) o chunks 0 = .ok r ∧
+      ∀ n, n ≤ chunks.flatten.length → ((grantedBefore r.1 n : Nat) : α) ≤ o.budget_ * n + n / o.w + o.budget_ * o.w + 1 := by
+  have hs : zs o = { u := 0, theta := o.theta_, rng := o.rng } := by simp [zs, h0]
+  refine (fixed_sim nrm uni qf (zp o)).transfer (C03.fixed_query_pure _) chunks o rfl (fun g => ∀ n, n ≤ chunks.flatten.length → ((grantedBefore g n : Nat) : α) ≤ o.budget_ * n + n / o.w + o.budget_ * o.w + 1) ?_
+  rw [hs]; exact C04.fixed_budget_respected (zp o) hw hb o.theta_ o.rng chunks
+
+theorem gen_variable_budget_respected (o : ZObj α) (hw : 1 ≤ o.w) (hb : 0 < o.budget_) (h0 : o.u_t_ = 0)
+    (chunks : List (List (Option α))) :
+    ∃ r, runChunked (gVarMgr nrm uni qf) o chunks 0 = .ok r ∧
+      ∀ n, n ≤ chunks.flatten.length → ((grantedBefore r.1 n : Nat) : α) ≤ o.budget_ * n + n / o.w + o.budget_ * o.w + 1 := by
+  have hs : zs o = { u := 0, theta := o.theta_, rng := o.rng } := by simp [zs, h0]
+  refine (var_sim nrm uni qf (zp o)).transfer (C03.variable_query_pure _) chunks o rfl (fun g => ∀ n, n ≤ chunks.flatten.length → ((grantedBefore g n : Nat) : α) ≤ o.budget_ * n + n / o.w + o.budget_ * o.w + 1) ?_
+  rw [hs]; exact C04.variable_budget_respected (zp o) hw hb o.theta_ o.rng chunks
+
+theorem gen_randVar_budget_respected (o : ZObj α) (hw : 1 ≤ o.w) (hb : 0 < o.budget_) (h0 : o.u_t_ = 0)
+    (chunks : List (List (Option α))) :
+    ∃ r, runChunked (gRandVarMgr nrm uni qf) o chunks 0 = .ok r ∧
+      ∀ n, n ≤ chunks.flatten.length → ((grantedBefore r.1 n : Nat) : α) ≤ o.budget_ * n + n / o.w + o.budget_ * o.w + 1 := by
+  have hs : zs o = { u := 0, theta := o.theta_, rng := o.rng } := by simp [zs, h0]
+  refine (randVar_sim nrm uni qf (zp o)).transfer (C03.randVar_query_pure _ nrm) chunks o rfl (fun g => ∀ n, n ≤ chunks.flatten.length → ((grantedBefore g n : Nat) : α) ≤ o.budget_ * n + n / o.w + o.budget_ * o.w + 1) ?_
+  rw [hs]; exact C04.randVar_budget_respected (zp o) nrm hw hb o.theta_ o.rng chunks
+
+theorem gen_split_budget_respected (o : ZObj α) (hw : 1 ≤ o.w) (hb : 0 < o.budget_) (h0 : o.u_t_ = 0)
+    (chunks : List (List (Option α))) :
+    ∃ r, runChunked (gSplitMgr nrm uni qf) o chunks 0 = .ok r ∧
+      ∀ n, n ≤ chunks.flatten.length → ((grantedBefore r.1 n : Nat) : α) ≤ o.budget_ * n + n / o.w + o.budget_ * o.w + 1 := by
+  have hs : zs o = { u := 0, theta := o.theta_, rng := o.rng } := by simp [zs, h0]
+  refine (split_sim nrm uni qf (zp o)).transfer (C03.split_query_pure _ uni) chunks o rfl (fun g => ∀ n, n ≤ chunks.flatten.length → ((grantedBefore g n : Nat) : α) ≤ o.budget_ * n + n / o.w + o.budget_ * o.w + 1) ?_
+  rw [hs]; exact C04.split_budget_respected (zp o) uni hw hb o.theta_ o.rng chunks
+
+theorem gen_random_budget_respected (o : ZObj α) (hw : 1 ≤ o.w) (hb : 0 < o.budget_) (h0 : o.u_t_ = 0)
+    (chunks : List (List (Option α))) :
+    ∃ r, runChunked (gRandomMgr nrm uni qf) o chunks 0 = .ok r ∧
+      ∀ n, n ≤ chunks.flatten.length → ((grantedBefore r.1 n : Nat) : α) ≤ o.budget_ * n + n / o.w + o.budget_ * o.w + 1 := by
+  have hs : zs o = { u := 0, theta := o.theta_, rng := o.rng } := by simp [zs, h0]
+  refine (random_sim nrm uni qf (zp o)).transfer (C03.random_query_pure _ uni) chunks o rfl (fun g => ∀ n, n ≤ chunks.flatten.length → ((grantedBefore g n : Nat) : α) ≤ o.budget_ * n + n / o.w + o.budget_ * o.w + 1) ?_
+  rw [hs]; exact C04.random_budget_respected (zp o) uni hw hb o.theta_ o.rng chunks
+
+/-- **DensityBasedSplitBudgetManager as translated**: a fresh object (`u_ = t_ = 0`) grants at most `budget*n + 1`. -/
+theorem gen_dbSplit_bound (o : DObj α) (hb : 0 < o.budget_) (hu : o.u_ = 0) (ht : o.t_ = 0)
+    (chunks : List (List (Option α))) :
+    ∃ r, runChunked (gDbMgr nrm uni qf) o chunks 0 = .ok r ∧
+      ∀ n, n ≤ chunks.flatten.length → ((grantedBefore r.1 n : Nat) : α) ≤ o.budget_ * n + 1 := by
+  have hs : ds o = { u := 0, t := 0, theta := o.theta_, rng := o.rng } := by simp [ds, hu, ht]
+  refine (dbSplit_sim nrm uni qf (dp o)).transfer (C03.dbSplit_query_pure _ nrm) chunks o rfl (fun g => ∀ n, n ≤ chunks.flatten.length → ((grantedBefore g n : Nat) : α) ≤ o.budget_ * n + 1) ?_
+  rw [hs]; exact C04.dbSplit_bound (dp o) nrm hb o.theta_ o.rng chunks
+
+/-- **PeriodicSampling as translated**: at most `budget*n`. -/
+theorem gen_periodic_bound (o : CObj α) (hb : 0 < o.budget_) (h1 : o.observed_samples_ = 0) (h2 : o.queried_samples_ = 0)
+    (chunks : List (List Unit)) :
+    ∃ r, runChunked (gPerMgr nrm uni qf) o chunks 0 = .ok r ∧
+      ∀ n, n ≤ chunks.flatten.length → ((grantedBefore r.1 n : Nat) : α) ≤ o.budget_ * n := by
+  have hs : cs o = { obs := 0, qd := 0, rng := o.rng } := by simp [cs, h1, h2]
+  refine (periodic_sim nrm uni qf o.budget_).transfer (C03.periodic_query_pure _) chunks o rfl (fun g => ∀ n, n ≤ chunks.flatten.length → ((grantedBefore g n : Nat) : α) ≤ o.budget_ * n) ?_
+  rw [hs]; exact C04.periodic_bound o.budget_ hb o.rng chunks
+
+/-- **StreamRandomSampling(allow_exceeding_budget=False) as translated**: at most `budget*n`. -/
+theorem gen_randomSampling_strict_bound (o : CObj α) (hb : 0 < o.budget_) (ha : o.allow_exceeding_budget = false)
+    (h1 : o.observed_samples_ = 0) (h2 : o.queried_samples_ = 0) (chunks : List (List Unit)) :
+    ∃ r, runChunked (gSrsMgr nrm uni qf) o chunks 0 = .ok r ∧
+      ∀ n, n ≤ chunks.flatten.length → ((grantedBefore r.1 n : Nat) : α) ≤ o.budget_ * n := by
+  have hs : cs o = { obs := 0, qd := 0, rng := o.rng } := by simp [cs, h1, h2]
+  refine (streamRandom_sim nrm uni qf false o.budget_).transfer (C03.streamRandom_query_pure _ _ uni) chunks o ⟨ha, rfl⟩ (fun g => ∀ n, n ≤ chunks.flatten.length → ((grantedBefore g n : Nat) : α) ≤ o.budget_ * n) ?_
+  rw [hs]; exact C04.randomSampling_strict_bound o.budget_ hb uni o.rng chunks
+
+/-- the hypotheses are satisfiable: a concrete fresh object over ℚ -/
+example : ∃ o : ZObj ℚ, 1 ≤ o.w ∧ 0 < o.budget_ ∧ o.u_t_ = 0 :=
+  ⟨{ w := 100, budget_ := 1/10, s := 1/100, v := 1/5, delta := 1, theta := 1, nclasses := 2, u_t_ := 0, theta_ := 1, rng := 0 },
+   by norm_num, by norm_num, rfl⟩
+
+end Bounds
+end Ska.StreamGenProps
